@@ -1,0 +1,32 @@
+//go:build verif
+
+package acme
+
+import "crypto"
+
+// VerifJWSEncodeJSON exposes jwsEncodeJSON (property C49). An empty kid selects the JWK form.
+func VerifJWSEncodeJSON(claimset interface{}, key crypto.Signer, kid, nonce, url string) ([]byte, error) {
+	return jwsEncodeJSON(claimset, key, KeyID(kid), nonce, url)
+}
+
+// VerifJWKEncode exposes jwkEncode.
+func VerifJWKEncode(pub crypto.PublicKey) (string, error) { return jwkEncode(pub) }
+
+// VerifJWSWithMAC exposes jwsWithMAC; it returns the three members of the flattened JWS.
+func VerifJWSWithMAC(key []byte, kid, url string, rawPayload []byte) (protected, payload, sig string, err error) {
+	j, err := jwsWithMAC(key, kid, url, rawPayload)
+	if err != nil {
+		return "", "", "", err
+	}
+	return j.Protected, j.Payload, j.Sig, nil
+}
+
+// VerifEncodeEAB runs Client.encodeExternalAccountBinding for an account key and a newAccount URL.
+func VerifEncodeEAB(key crypto.Signer, regURL string, eab *ExternalAccountBinding) (protected, payload, sig string, err error) {
+	c := &Client{Key: key, dir: &Directory{RegURL: regURL}}
+	j, err := c.encodeExternalAccountBinding(eab)
+	if err != nil {
+		return "", "", "", err
+	}
+	return j.Protected, j.Payload, j.Sig, nil
+}
